@@ -68,13 +68,20 @@ fn load_interface_from_paths(
                 err
             ))
         })?;
-        let unit: InterfaceUnit = serde_json::from_str(&json).map_err(|err| {
-            compile_error(format!(
-                "failed to parse interface {}: {}",
-                candidate.display(),
-                err
-            ))
-        })?;
+        // Types nest (`Vec[Vec[..]]`, tuples of tuples) and every level costs several JSON
+        // levels, so an interface `build` wrote can be deeper than serde_json's default
+        // recursion limit of 128 (see `read_core`).
+        let mut deserializer = serde_json::Deserializer::from_str(&json);
+        deserializer.disable_recursion_limit();
+        let unit: InterfaceUnit = serde::Deserialize::deserialize(&mut deserializer)
+            .and_then(|unit| deserializer.end().map(|()| unit))
+            .map_err(|err| {
+                compile_error(format!(
+                    "failed to parse interface {}: {}",
+                    candidate.display(),
+                    err
+                ))
+            })?;
         if unit.package != package {
             return Err(compile_error(format!(
                 "interface {} declares package {}, expected {}",
